@@ -77,8 +77,9 @@ class C42(Prop):
     rule = ("fractions on the simplex as dyadic rationals for 1-5 phases with exact-zero, tiny "
             "(2^-50) and saturated (1, 1-2^-40) phases, densities dyadic in [1/4,64], 1-D and "
             "column-vector calls, multi-saturated error inputs; chain-rule inputs: integer "
-            "gradients with 0-3 leading non-fraction entries and positive dyadic fractions (not "
-            "normalised); matrices with positive dyadic rows for normalize_rows; non-trivial = a "
+            "gradients (not all zero) with 0-3 leading non-fraction entries and fractions that "
+            "are 45% already normalised (dyadic, sum EXACTLY one, incl. zero and saturated "
+            "components), 15% within 2^-45 of sum one, 40% general positive dyadics; matrices with positive dyadic rows for normalize_rows; non-trivial = a "
             "saturation case with >= 3 present phases (linear solve) or a chain-rule case with "
             ">= 2 components; distinct by (case, output)")
     trusted = ["np.linalg.solve returns the solution of the assembled system (non-singularity not proved)",
@@ -119,6 +120,25 @@ class C42(Prop):
             kind = "tiny"
         return y, kind
 
+    def _simplex_exact(self, rng, n):
+        """Dyadic point of the simplex (sum exactly one) for the chain-rule cases."""
+        if n == 1:
+            return [Fr(1)], "single"
+        if rng.random() < 0.15:
+            y = [Fr(0)] * n
+            y[rng.randrange(n)] = Fr(1)
+            return y, "saturated"
+        tot = 2 ** rng.choice([2, 3, 4, 6])
+        present = rng.randint(2, n) if rng.random() < 0.3 else n
+        present = min(present, tot)
+        idx = rng.sample(range(n), present)
+        cuts = sorted(rng.sample(range(1, tot), present - 1))
+        parts = [b - a for a, b in zip([0] + cuts, cuts + [tot])]
+        y = [Fr(0)] * n
+        for i, p in zip(idx, parts):
+            y[i] = Fr(p, tot)
+        return y, "mixed"
+
     def generate(self, rng, n, tier):
         for _ in range(n):
             r = rng.random()
@@ -138,8 +158,24 @@ class C42(Prop):
                 nc = rng.randint(1, 5)
                 lead = rng.randint(0, 3)
                 df = [rng.randint(-10, 10) for _ in range(lead + nc)]
-                x = [Fr(rng.randint(2, 32), 8) for _ in range(nc)]
-                yield {"kind": "chain", "df": df, "x": [_pack(v) for v in x],
+                if all(v == 0 for v in df[lead:]):
+                    df[lead + rng.randrange(nc)] = rng.choice([-7, 3, 5])
+                q = rng.random()
+                if q < 0.45:
+                    # already normalised fractions: the sum is EXACTLY one (dyadic simplex,
+                    # incl. zero components and a saturated component)
+                    x, _ = self._simplex_exact(rng, nc)
+                    sub = "unit-sum"
+                elif q < 0.6:
+                    # within 1e-13 of one (2^-45 ~ 2.8e-14 off)
+                    x, _ = self._simplex_exact(rng, nc)
+                    big = max(range(nc), key=lambda i: x[i])
+                    x[big] += rng.choice([-1, 1]) * Fr(1, 2 ** 45)
+                    sub = "near-unit-sum"
+                else:
+                    x = [Fr(rng.randint(2, 32), 8) for _ in range(nc)]
+                    sub = "general"
+                yield {"kind": "chain", "sub": sub, "df": df, "x": [_pack(v) for v in x],
                        "two_d": rng.random() < 0.5}
             else:
                 rows, cols = rng.randint(1, 4), rng.randint(1, 5)
